@@ -5,6 +5,7 @@
  *                 S <0|1>        libast_set_silent(flag)              -> "S <flag> <returned>"
  *                 Y <statement>  as X, but one earlier write on stderr has FAILED in that child (fd 2 pointed at a full non-blocking
  *                                pipe for one fputs(), then fd 2 is restored; clearerr() is NOT called): history must not matter
+ *                 A <statement>  as X, but executed by an atexit handler while the exit() of an earlier libast_fatal_error is running
  *                 X <statement> [<context> [<message size>]]  run the statement in a forked child with fd 2 captured;
  *                                context = alone | braced | then_true | then_false | loop2 (the statement as the unbraced then-arm
  *                                of an if/else with the outer condition true / false, as the unbraced body of a 2-iteration loop);
@@ -73,6 +74,31 @@ STMT(ASSERT_RVAL_fail_pct, ASSERT_RVAL(pct_fail(total % s, n %d), 7)) STMT(REQUI
 STMT(print_warning, libast_print_warning MSG) STMT(print_error, libast_print_error MSG)
 STMT(dprintf, libast_dprintf MSG) STMT(fatal_error, libast_fatal_error MSG)
 
+/* the asserted / required expression in every scalar type: truth value as C's !(x) sees it */
+struct bf { unsigned f : 3; };
+static struct bf bf_hold = { 4 }, bf_fail = { 0 };
+static struct bf *hb(void) { counter++; return &bf_hold; }
+static struct bf *fb(void) { counter++; return &bf_fail; }
+#define TYPED(ty, CT, H, F) \
+    static CT th_##ty(void) { counter++; return H; } \
+    static CT tf_##ty(void) { counter++; return F; } \
+    VSTMT(ASSERT_hold_##ty, ASSERT(th_##ty())) VSTMT(ASSERT_fail_##ty, ASSERT(tf_##ty())) \
+    VSTMT(REQUIRE_hold_##ty, REQUIRE(th_##ty())) VSTMT(REQUIRE_fail_##ty, REQUIRE(tf_##ty())) \
+    STMT(ASSERT_RVAL_hold_##ty, ASSERT_RVAL(th_##ty(), 7)) STMT(ASSERT_RVAL_fail_##ty, ASSERT_RVAL(tf_##ty(), 7)) \
+    STMT(REQUIRE_RVAL_hold_##ty, REQUIRE_RVAL(th_##ty(), 7)) STMT(REQUIRE_RVAL_fail_##ty, REQUIRE_RVAL(tf_##ty(), 7))
+TYPED(double, double, 0.5, 0.0)
+TYPED(float, float, 0.25f, 0.0f)
+TYPED(longdouble, long double, 0.001L, 0.0L)
+TYPED(negdouble, double, -0.5, -0.0)
+TYPED(longlong, long long, (1LL << 40), 0LL)
+TYPED(pointer, void *, (void *) &total, NULL)
+TYPED(bool, _Bool, 1, 0)
+TYPED(uchar, unsigned char, 128, 0)
+VSTMT(ASSERT_hold_bitfield, ASSERT(hb()->f)) VSTMT(ASSERT_fail_bitfield, ASSERT(fb()->f))
+VSTMT(REQUIRE_hold_bitfield, REQUIRE(hb()->f)) VSTMT(REQUIRE_fail_bitfield, REQUIRE(fb()->f))
+STMT(ASSERT_RVAL_hold_bitfield, ASSERT_RVAL(hb()->f, 7)) STMT(ASSERT_RVAL_fail_bitfield, ASSERT_RVAL(fb()->f, 7))
+STMT(REQUIRE_RVAL_hold_bitfield, REQUIRE_RVAL(hb()->f, 7)) STMT(REQUIRE_RVAL_fail_bitfield, REQUIRE_RVAL(fb()->f, 7))
+
 static struct { const char *name; int (*fn[4])(void); const char *text; const char *expr; } T[] = {
 #define E(n, t) { #n, { f_##n##_alone, f_##n##_braced, f_##n##_then, f_##n##_loop }, t, NULL }
 #define X(n, t, e) { #n, { f_##n##_alone, f_##n##_braced, f_##n##_then, f_##n##_loop }, t, e }
@@ -85,6 +111,15 @@ static struct { const char *name; int (*fn[4])(void); const char *text; const ch
     X(ASSERT_fail_pct, "ASSERT failed", "pct_fail(total % s, n %d)"), X(ASSERT_RVAL_fail_pct, "ASSERT failed", "pct_fail(total % s, n %d)"),
     X(REQUIRE_fail_pct, "REQUIRE failed", "pct_fail(total % s, n %d)"), X(REQUIRE_RVAL_fail_pct, "REQUIRE failed", "pct_fail(total % s, n %d)"),
     E(print_warning, "PAYLOAD 42"), E(print_error, "PAYLOAD 42"), E(dprintf, "PAYLOAD 42"), E(fatal_error, "PAYLOAD 42"),
+#define TY(ty, h, f) \
+    X(ASSERT_hold_##ty, "ASSERT failed", h), X(ASSERT_fail_##ty, "ASSERT failed", f), \
+    X(ASSERT_RVAL_hold_##ty, "ASSERT failed", h), X(ASSERT_RVAL_fail_##ty, "ASSERT failed", f), \
+    X(REQUIRE_hold_##ty, "REQUIRE failed", h), X(REQUIRE_fail_##ty, "REQUIRE failed", f), \
+    X(REQUIRE_RVAL_hold_##ty, "REQUIRE failed", h), X(REQUIRE_RVAL_fail_##ty, "REQUIRE failed", f)
+    TY(double, "th_double()", "tf_double()"), TY(float, "th_float()", "tf_float()"), TY(longdouble, "th_longdouble()", "tf_longdouble()"),
+    TY(negdouble, "th_negdouble()", "tf_negdouble()"), TY(longlong, "th_longlong()", "tf_longlong()"),
+    TY(pointer, "th_pointer()", "tf_pointer()"), TY(bool, "th_bool()", "tf_bool()"), TY(uchar, "th_uchar()", "tf_uchar()"),
+    TY(bitfield, "hb()->f", "fb()->f"),
     { NULL, { NULL, NULL, NULL, NULL }, NULL, NULL }
 };
 static const char *CTX[] = { "alone", "braced", "then_true", "then_false", "loop2", NULL };
@@ -113,6 +148,15 @@ static char *make_big(size_t size) {          /* `size` bytes, no '%', no newlin
     return b;
 }
 
+/* history 2: the statement runs inside a client atexit handler while the exit() of an earlier fatal error is in progress */
+static int ax_k, ax_fn, ax_fd;
+static void ax_handler(void) {
+    int res[2];
+    res[0] = T[ax_k].fn[ax_fn](); res[1] = 0;
+    fflush(stderr);
+    if (write(ax_fd, res, sizeof(res)) < 0) { }
+}
+
 static void run_cell(int k, int hist, int ctx, size_t size) {
     int ep[2], rp[2], status = 0, res[2] = { -1, -1 }, got = 0, text, count = 0;
     static char buf[1 << 18], tmp[1 << 16]; size_t n = 0, total = 0; ssize_t c; pid_t pid;
@@ -128,10 +172,16 @@ static void run_cell(int k, int hist, int ctx, size_t size) {
         dup2(ep[1], 2);
         setvbuf(stderr, NULL, _IONBF, 0);
         alarm(10);
-        if (hist) shared[1] = provoke_failed_write(ep[1]);
+        if (hist == 1) shared[1] = provoke_failed_write(ep[1]);
         close(ep[1]);
         big = bigarg;
         outer = (ctx != 3);
+        if (hist == 2) {
+            ax_k = k; ax_fn = ctx == 0 ? 0 : (ctx == 1 ? 1 : (ctx == 4 ? 3 : 2)); ax_fd = rp[1];
+            atexit(ax_handler);
+            libast_fatal_error("FIRST\n");
+            _exit(99);                        /* not reached */
+        }
         v = T[k].fn[ctx == 0 ? 0 : (ctx == 1 ? 1 : (ctx == 4 ? 3 : 2))]();
         fflush(stderr);
         res[0] = v; res[1] = 0;
@@ -146,6 +196,10 @@ static void run_cell(int k, int hist, int ctx, size_t size) {
         if (total > (64u << 20)) { kill(pid, SIGKILL); break; }
     }
     buf[n] = 0;
+    if (hist == 2) {                          /* the first fatal error's own line is not part of the observed statement */
+        char *q = strstr(buf, "FATAL:  FIRST\n");
+        if (q && q - buf < 200) { size_t cut = (size_t) (q - buf) + 14; memmove(buf, buf + cut, n - cut + 1); n -= cut; total -= cut; }
+    }
     got = (read(rp[0], res, sizeof(res)) == (ssize_t) sizeof(res));
     close(ep[0]); close(rp[0]);
     waitpid(pid, &status, 0);
@@ -168,7 +222,7 @@ static void run_cell(int k, int hist, int ctx, size_t size) {
         while ((q = strstr(q, msg)) != NULL) { count++; q += need; }
         free(msg);
     }
-    printf("%c %s %s %lu out=%s eval=%d ctl=%s val=%d status=%d bytes=%lu text=%d count=%d else=%d ferr=%d\n", hist ? 'Y' : 'X', T[k].name,
+    printf("%c %s %s %lu out=%s eval=%d ctl=%s val=%d status=%d bytes=%lu text=%d count=%d else=%d ferr=%d\n", hist == 2 ? 'A' : (hist ? 'Y' : 'X'), T[k].name,
            CTX[ctx], (unsigned long) size, cls, counter, ctl, got ? res[0] : -1, WIFEXITED(status) ? WEXITSTATUS(status) : -1,
            (unsigned long) total, text, count, ELSE_TAKEN, shared[1]);
     free(bigarg);
@@ -191,7 +245,7 @@ int main(int argc, char **argv) {
         int k;
         if (line[0] == 'L') { libast_debug_level = (unsigned) atoi(line + 2); printf("L %u\n", libast_debug_level); }
         else if (line[0] == 'S') { int b = atoi(line + 2); printf("S %d %d\n", b, (int) libast_set_silent(b ? TRUE : FALSE)); }
-        else if (line[0] == 'X' || line[0] == 'Y') {
+        else if (line[0] == 'X' || line[0] == 'Y' || line[0] == 'A') {
             char nm[64], cx[32]; unsigned long size = 0; int ctx;
             cx[0] = 0;
             if (sscanf(line + 2, "%63s %31s %lu", nm, cx, &size) < 1) continue;
@@ -199,7 +253,7 @@ int main(int argc, char **argv) {
             for (k = 0; T[k].name && strcmp(T[k].name, nm); k++) ;
             for (ctx = 0; CTX[ctx] && strcmp(CTX[ctx], cx); ctx++) ;
             if (!T[k].name || !CTX[ctx]) { printf("X %s unknown\n", line + 2); continue; }
-            run_cell(k, line[0] == 'Y', ctx, (size_t) size);
+            run_cell(k, line[0] == 'A' ? 2 : (line[0] == 'Y'), ctx, (size_t) size);
         }
     }
     free(text);
